@@ -251,12 +251,16 @@ func c04E2E(res *lib.Result, tier string, root *lib.Rng) error {
 		src += "---@type PointMap\nlocal pmap = {}\nprint(pmap.somekey)\n"
 		// a file that starts with a byte-order mark (which is not part of its text)
 		src += "print(gbom, gbom2)\n"
+		// files whose names need percent-encoding in a URI (a blank, a literal '%', a non-ASCII character): the URI of an
+		// answer must DENOTE the file ("a%41 b.lua" sent raw would denote "aA b.lua")
+		src += "print(gpct, gcjk)\n"
 		// diagnostics whose range is composed from two operand locations (always present, whatever the generator drew)
 		src += "local af1, af2 = gshared_counter and false, gshared_counter or true\nif af1 == af1 then print(af2) elseif af1 == af1 then print(1) end\nlocal dk = { k1 = 1, k1 = 2, [1] = 1, [1] = 2 }\nprint(dk)\n"
 		files := map[string]string{"main.lua": src, "defs.lua": defs,
 			"mod.lua":   "local function helper() end\nreturn { alpha = 1, beta = helper, [\"gamma\"] = 3 }\n",
 			"types.lua": "-- types\n--\n--\n---@class Point\n---@field px number\n---@field py number\n\n---@alias PointList Point[]\n---@alias PointMap table<string, Point>\n---@class Shape\n---@field origin Point\nlocal Shape = {}\nreturn Shape\n",
-			"bom.lua":   "\xEF\xBB\xBFgbom = 1 gbom2 = 2\nprint(gbom)\n"}
+			"bom.lua":   "\xEF\xBB\xBFgbom = 1 gbom2 = 2\nprint(gbom)\n",
+			"a%41 b.lua": "gpct = 1\n", "名 字.lua": "gcjk = 2\n"}
 		dir := lib.ScratchDir(fmt.Sprintf("c04e%d", wi))
 		if err := lib.WriteWorkspace(dir, files); err != nil {
 			return err
